@@ -1,6 +1,6 @@
 (* C08 - Uniquify makes every non-leaf instance unique without changing the design. Property theorems only. *)
 From Coq Require Import List.
-From SV Require Import Base.Base IR.State IR.NS IR.Ops Xform.Clone Xform.Xform Proofs.Inv1a Proofs.Inv2a Proofs.Fresh Proofs.RefK Proofs.NsInv Proofs.XformInv Proofs.UniqInv.
+From SV Require Import Base.Base IR.State IR.NS IR.Ops Xform.Clone Xform.Xform Proofs.Inv1a Proofs.Inv2a Proofs.Fresh Proofs.RefK Proofs.NsInv Proofs.InvW Proofs.FieldT Proofs.XformInv Proofs.UniqInv Proofs.CloneFull.
 Import ListNotations.
 
 (* "running uniquify again changes nothing": when every instance met by the breadth-first walk
@@ -20,6 +20,24 @@ Theorem C08_keeps_well_formed : forall ops u f fuel n x',
   uniquify fuel (mkX (run ops init) u f) n = (x', None) -> Inv1a (st x') /\ Inv2a (st x') /\ InvT (st x').
 Proof. exact uniquify_reachable. Qed.
 Print Assumptions C08_keeps_well_formed.
+
+(* ... and the whole structural invariant of the editing API (C01 + C02: containment, reference sets,
+   every wire lists exactly the pins that report it, every instance's outer-pin table mirrors the
+   ports of the definition it references): after a completed uniquify every theorem about editing
+   calls applies again. The proof goes through the faithfulness of Definition._clone: the memo is an
+   injective map, each copied pin / wire / instance carries the image of its source's wire pointer /
+   pin list / outer-pin table, nothing else changes (Proofs/CloneMemo, CloneRR, CloneFaith, CloneInvP). *)
+Theorem C08_keeps_full_invariant : forall ops u f fuel n x',
+  uniquify fuel (mkX (run ops init) u f) n = (x', None) -> Inv (st x').
+Proof. exact uniquify_reachable_inv. Qed.
+Print Assumptions C08_keeps_full_invariant.
+
+Theorem C08_keeps_full_invariant_from : forall fuel x n x',
+  Inv (st x) /\ InvT (st x) /\ Fresh (st x) /\ FT (st x) /\ RefK (st x) ->
+  uniquify fuel x n = (x', None) ->
+  Inv (st x') /\ InvT (st x') /\ Fresh (st x') /\ FT (st x') /\ RefK (st x').
+Proof. exact uniquify_full_inv. Qed.
+Print Assumptions C08_keeps_full_invariant_from.
 
 (* the same as a step invariant, from any state that satisfies it *)
 Theorem C08_keeps_well_formed_from : forall fuel x n x',
